@@ -72,8 +72,7 @@ Definition spec_ok15 (c : vcase) (o : vobs) : bool :=
    top-down evaluator are then not those of the algebra, and need not be
    invariant); for initBindings the bound variables are pushed at the root *)
 Definition kf_case (pushed : list var) (c : case) : N :=
-  first_nz (scan (map fst (ds_named (c_ds c))) false pushed (c_alg c))
-           (if nonempty (inter (bool_vars (c_alg c)) (cmp_vars (c_alg c))) then 9 else 0).
+  scan (map fst (ds_named (c_ds c))) false pushed (c_alg c).
 (* initBindings are never forgotten (FrozenBindings.forget keeps them): an
    expression that mentions such a variable where its own pattern does not
    certainly bind it sees a value the algebra does not give it *)
